@@ -88,6 +88,7 @@ func (i *interpreter) runMain(fn *ssa.Function) {
 	i.pendingAbort = nil
 	i.shadows = nil
 	i.mutexes = nil
+	i.pools = nil
 	i.atomics = nil
 	i.elemOf = nil
 	i.addrs = nil
